@@ -653,6 +653,11 @@ def world_boundary_histories():
               ('w', 0, ('insstyle', [[T('N', 'y')]], 1, 0)), ('w', 1, ('insns', 'k', 'u3', 0, 0)),
               ('w', 1, ('delrule', 3)), ('w', 0, ('setsel', 2, [[T(P('q'), 'd')]])), ('w', 1, ('delrule', 3)),
               ('wobjsel', [[T(P('p'), 'e')]])])
+    # detached inside B (A.deleteRule), then a rejected @namespace insert into B rolls back and re-parents it
+    h.append([('w', 0, ('parse', (), [ns('p', 'u3'), st([T('N', 'b')])])),
+              ('w', 1, ('parse', (), [ns('p', 'a'), ns('', 'urn:x'), st([T(P('p'), 'a')]), st([T('N', 'x')])])),
+              ('wgrab', 0, 1, [[T('A', 'x')]]), ('wshare', 1, None, 1), ('w', 0, ('delrule', 1)),
+              ('w', 1, ('insns', '', 'a', 1, 0)), ('w', 1, ('setns', 'k', 'a'))])
     # the target sheet does not declare the namespace at all
     h.append([A, ('w', 1, ('parse', (), [st([T('N', 'b')])])), g, ('wshare', 1, None, 1)])
     return h
